@@ -54,6 +54,10 @@ static int parse_redirect(reproc_redirect *redirect,
     redirect->type = REPROC_REDIRECT_PATH;
   }
 
+  if (redirect->type == REPROC_REDIRECT_STDOUT) {
+    ASSERT_EINVAL(stream == REPROC_STREAM_ERR);
+  }
+
   if (redirect->type == REPROC_REDIRECT_DEFAULT) {
     if (parent) {
       ASSERT_EINVAL(!discard);
